@@ -44,7 +44,7 @@ theorem path_bound {g : Graph} {rank : Node → Nat} (h : validRank g rank = tru
 /-- every step of the abstract machine from a certificate state is an intra-procedural edge -/
 theorem edge_of_step (P : Prog) (k : Nat) (f : Func) (cfg : Cfg) (cert : List St) (s s' : St) (l : List St)
     (hs : s ∈ cert) (he : exec P f cfg s = .ok l) (hm : s' ∈ l) :
-    ((k, s.pc), (k, s'.pc)) ∈ intraEdges P k f cfg cert := by
+    ((k, s), (k, s')) ∈ intraEdges P k f cfg cert := by
   unfold intraEdges
   simp only [List.mem_flatMap]
   refine ⟨s, hs, ?_⟩
